@@ -17,7 +17,11 @@ Inductive vop :=
 | VNext (ci : nat) | VPrev (ci : nat)
 | VDSet (ti : nat) (k v : Z) | VDGet (ti : nat) (k : Z) | VDDel (ti : nat) (k : Z)
 | VSAdd (ti : nat) (k : Z) | VSDisc (ti : nat) (k : Z) | VSIn (ti : nat) (k : Z)
-| VItOpen (ti : nat) (kind : Z) | VItNext (ci : nat) (mode : Z).
+| VItOpen (ti : nat) (kind : Z) | VItNext (ci : nat) (mode : Z)
+| VMin (ti : nat) | VMax (ti : nat)
+| VPop (ti : nat) (k : Z) | VPopItem (ti : nat) | VClear (ti : nat)
+| VSetDefault (ti : nat) (k v : Z) | VUpdate (ti : nat) (k v : Z)
+| VSRemove (ti : nat) (k : Z) | VSPop (ti : nat) | VSClear (ti : nat).
 
 Definition bz (b : bool) : obs := I (if b then 1 else 0).
 Definition nz (n : nat) : obs := I (Z.of_nat n).
@@ -51,6 +55,16 @@ Definition enc (x : vop) : obs :=
   | VCopy ti => L [I 27; nz ti]
   | VItOpen ti kind => L [I 18; nz ti; I kind]
   | VItNext ci mode => L [I 19; nz ci; I mode]
+  | VMin ti => L [I 28; nz ti]
+  | VMax ti => L [I 29; nz ti]
+  | VPop ti k => L [I 40; nz ti; I k]
+  | VPopItem ti => L [I 41; nz ti]
+  | VClear ti => L [I 42; nz ti]
+  | VSetDefault ti k v => L [I 43; nz ti; I k; I v]
+  | VUpdate ti k v => L [I 44; nz ti; I k; I v]
+  | VSRemove ti k => L [I 45; nz ti; I k]
+  | VSPop ti => L [I 46; nz ti]
+  | VSClear ti => L [I 47; nz ti]
   end.
 
 (* ---------------------------------------------------------------- the reference world *)
@@ -165,6 +179,50 @@ Definition rstep (rw : rworld) (x : vop) : rworld * obs :=
         match snd (split_anchor a l) with
         | x :: _ => (mkRW (rw_trees rw) (set_nth ci (ti, AA (fst x)) (rw_cursors rw)), obs_of_iter mode (Some x))
         | [] => (mkRW (rw_trees rw) (set_nth ci (ti, AR) (rw_cursors rw)), N)
+        end)
+  (* least / greatest element *)
+  | VMin ti =>
+      r_with_tree rw ti (fun r => (rw, match r_items r with x :: _ => L [I (fst x); I (snd x)] | [] => Prelude.E eIndex end))
+  | VMax ti =>
+      r_with_tree rw ti (fun r => (rw, match rev (r_items r) with x :: _ => L [I (fst x); I (snd x)] | [] => Prelude.E eIndex end))
+  (* the collections.abc mixins: the lookup comes first, so an absent key / an empty container is
+     answered with KeyError (None for clear) even by a frozen tree *)
+  | VPop ti k =>
+      r_with_tree rw ti (fun r =>
+        match find_sorted k (r_items r) with
+        | None => (rw, Prelude.E eKey)
+        | Some e => r_mutate rw ti r (del_sorted k (r_items r)) (I (snd e))
+        end)
+  | VPopItem ti =>
+      r_with_tree rw ti (fun r =>
+        match r_items r with
+        | [] => (rw, Prelude.E eKey)
+        | x :: _ => r_mutate rw ti r (del_sorted (fst x) (r_items r)) (L [I (fst x); I (snd x)])
+        end)
+  | VClear ti | VSClear ti =>
+      r_with_tree rw ti (fun r =>
+        match r_items r with
+        | [] => (rw, N)
+        | _ :: _ => r_mutate rw ti r [] N
+        end)
+  | VSetDefault ti k v =>
+      r_with_tree rw ti (fun r =>
+        match find_sorted k (r_items r) with
+        | Some e => (rw, I (snd e))
+        | None => r_mutate rw ti r (ins_sorted (k, v) (r_items r)) (I v)
+        end)
+  | VUpdate ti k v => r_with_tree rw ti (fun r => r_mutate rw ti r (ins_sorted (k, v) (r_items r)) N)
+  | VSRemove ti k =>
+      r_with_tree rw ti (fun r =>
+        match find_sorted k (r_items r) with
+        | None => (rw, Prelude.E eKey)
+        | Some _ => r_mutate rw ti r (del_sorted k (r_items r)) N
+        end)
+  | VSPop ti =>
+      r_with_tree rw ti (fun r =>
+        match r_items r with
+        | [] => (rw, Prelude.E eKey)
+        | x :: _ => r_mutate rw ti r (del_sorted (fst x) (r_items r)) (I (fst x))
         end)
   end.
 
@@ -410,6 +468,122 @@ Proof.
     + cbn in Hf. lia.
 Qed.
 
+Lemma first_element_spec b : bwf b -> first_element b = Ok (hd_error (elements (b_root b))).
+Proof.
+  intros (Hwf & _). pose proof Hwf as (_ & _ & Hs). unfold first_element.
+  destruct (cursor_next_proof (b_t b) (b_root b) new_cursor Hwf) as (bef & aft & c' & Hp & -> & _).
+  { apply (cursor_boundary_proof (b_t b) (b_root b) new_cursor). }
+  destruct Hp as (He & Hb). cbn in Hb. subst bef. cbn in He. subst aft. reflexivity.
+Qed.
+
+Lemma find_sorted_hd x l : find_sorted (fst x) (x :: l) = Some x.
+Proof. destruct x as [k v]. cbn. now rewrite Z.eqb_refl. Qed.
+
+Lemma del_sorted_hd x l : del_sorted (fst x) (x :: l) = l.
+Proof. destruct x as [k v]. cbn. now rewrite Z.eqb_refl. Qed.
+
+Lemma get_element_spec b k : bwf b -> get_element b k = Ok (find_sorted k (elements (b_root b))).
+Proof. intros (Hwf & _). apply (lookup_spec_proof (b_t b)). exact Hwf. Qed.
+
+(* clear(): every element is popped *)
+Lemma clear_loop_spec : forall l fuel b,
+  bwf b -> b_immut b = false -> elements (b_root b) = l -> (length l < fuel)%nat ->
+  exists b', clear_loop fuel b = Ok b' /\ bwf b' /\ elements (b_root b') = [] /\
+             b_immut b' = false /\ b_t b' = b_t b /\ b_inorder b' = b_inorder b.
+Proof.
+  induction l as [|x l IH]; intros fuel b Hb Him He Hf; (destruct fuel as [|f]; [cbn in Hf; lia|]); cbn [clear_loop].
+  - rewrite (first_element_spec b Hb), He. cbn [bind hd_error]. exists b. auto 10.
+  - rewrite (first_element_spec b Hb), He. cbn [bind hd_error].
+    rewrite (get_element_spec b _ Hb), He, find_sorted_hd. cbn [bind].
+    destruct (delete_btree_spec_proof b (fst x) None Hb Him) as (b' & Hd & Hb' & He' & Him' & Ht').
+    rewrite He, find_sorted_hd in Hd, He'. cbn [dspec after_del] in Hd, He'. rewrite del_sorted_hd in He'.
+    rewrite Hd. cbn [bind].
+    destruct (IH f b' Hb' Him' He' ltac:(cbn in Hf; lia)) as (b2 & Hr & Hb2 & He2 & Him2 & Ht2 & Hio2).
+    exists b2. split; [assumption|]. split; [assumption|]. split; [assumption|]. split; [assumption|].
+    split; [congruence|]. rewrite Hio2. eapply delete_btree_inorder; eauto.
+Qed.
+
+Lemma sclear_loop_spec : forall l fuel b,
+  bwf b -> b_immut b = false -> elements (b_root b) = l -> (length l < fuel)%nat ->
+  exists b', sclear_loop fuel b = Ok b' /\ bwf b' /\ elements (b_root b') = [] /\
+             b_immut b' = false /\ b_t b' = b_t b /\ b_inorder b' = b_inorder b.
+Proof.
+  induction l as [|x l IH]; intros fuel b Hb Him He Hf; (destruct fuel as [|f]; [cbn in Hf; lia|]); cbn [sclear_loop].
+  - rewrite (first_element_spec b Hb), He. cbn [bind hd_error]. exists b. auto 10.
+  - rewrite (first_element_spec b Hb), He. cbn [bind hd_error].
+    destruct (delete_btree_spec_proof b (fst x) None Hb Him) as (b' & Hd & Hb' & He' & Him' & Ht').
+    rewrite He, find_sorted_hd in Hd, He'. cbn [dspec after_del] in Hd, He'. rewrite del_sorted_hd in He'.
+    rewrite Hd. cbn [bind].
+    destruct (IH f b' Hb' Him' He' ltac:(cbn in Hf; lia)) as (b2 & Hr & Hb2 & He2 & Him2 & Ht2 & Hio2).
+    exists b2. split; [assumption|]. split; [assumption|]. split; [assumption|]. split; [assumption|].
+    split; [congruence|]. rewrite Hio2. eapply delete_btree_inorder; eauto.
+Qed.
+
+(* a mutation described by its effect on an unfrozen tree and rejected by a frozen one *)
+Lemma sim_mutate_gen w rw ti b r (comp : res (btree * obs)) items' o :
+  R w rw -> nth_error (w_trees w) ti = Some b -> nth_error (rw_trees rw) ti = Some r -> tree_rel b r ->
+  (b_immut b = true -> comp = Lib eImmutable) ->
+  (b_immut b = false -> exists b', comp = Ok (b', o) /\ tree_rel b' (r_set r items') /\ b_t b' = b_t b) ->
+  let '(w', o1) := mutate w ti b comp in
+  let '(rw', o2) := r_mutate rw ti r items' o in
+  o1 = o2 /\ R w' rw'.
+Proof.
+  intros HR Hb Hr Hrel Hfro Hok. pose proof Hrel as (_ & _ & _ & Him & _). unfold r_mutate. rewrite <- Him.
+  destruct (b_immut b) eqn:Eim.
+  - rewrite (Hfro eq_refl). cbn [mutate]. auto.
+  - destruct (Hok eq_refl) as (b' & -> & Hrel' & Ht'). cbn [mutate]. split; [reflexivity|].
+    eapply R_mutate; eauto.
+Qed.
+
+Lemma clear_frozen b x l fuel :
+  bwf b -> b_immut b = true -> elements (b_root b) = x :: l ->
+  clear_loop (S fuel) b = Lib eImmutable /\ sclear_loop (S fuel) b = Lib eImmutable.
+Proof.
+  intros Hb Him He. cbn [clear_loop sclear_loop]. rewrite (first_element_spec b Hb), He. cbn [bind hd_error].
+  rewrite (get_element_spec b _ Hb), He, find_sorted_hd. cbn [bind]. unfold delete_btree. rewrite Him. auto.
+Qed.
+
+Lemma minimum_root t root : wf t root ->
+  minimum root = match elements root with e :: _ => Ok e | [] => Internal eIndex end.
+Proof.
+  intros (Ht & (h & Hw) & _). unfold wfr, root_lo in Hw. destruct root as [lf es ks]. destruct lf.
+  - cbn. destruct es; reflexivity.
+  - cbn [n_leaf] in Hw. destruct (minimum_spec t Ht h 1 _ Hw (le_n _)) as (e & rest & -> & ->). reflexivity.
+Qed.
+
+Lemma last_max_snoc : forall ks' k,
+  (fix last_max (l : list tree) : res elt :=
+     match l with [] => Internal eIndex | [k] => maximum k | _ :: r => last_max r end) (ks' ++ [k]) = maximum k.
+Proof. induction ks' as [|a ks' IH]; intros k; [reflexivity|]. cbn [app]. destruct (ks' ++ [k]) eqn:E; [destruct ks'; discriminate|]. rewrite <- (IH k). rewrite E. reflexivity. Qed.
+
+Lemma maximum_spec t : (3 <= t)%nat -> forall h lo n, wfn t lo h n -> (1 <= lo)%nat ->
+  exists e front, maximum n = Ok e /\ elements n = front ++ [e].
+Proof.
+  intros Ht. induction h as [|h IH]; intros lo [lf es ks] Hw Hlo.
+  { pose proof (wfn_pos t Ht _ _ _ Hw). lia. }
+  apply wfn_inv in Hw as (Hb & [(-> & Hh & ->)|(-> & h' & Hh & Hk & Hall)]).
+  - destruct (exists_last (l := es)) as (front & e & ->); [destruct es; [cbn in Hb; lia|discriminate]|].
+    exists e, front. cbn [maximum elements]. rewrite rev_app_distr. split; reflexivity.
+  - inversion Hh; subst h'.
+    destruct (exists_last (l := ks)) as (ks' & k & ->); [destruct ks; [discriminate|discriminate]|].
+    apply Forall_app in Hall as (_ & Hk1). inversion Hk1; subst.
+    assert (Hm : (1 <= t_min t)%nat) by (unfold t_min; lia).
+    destruct (IH _ k H1 Hm) as (e & front & Hmax & He).
+    exists e, (zipl ks' es ++ front). cbn [maximum]. rewrite last_max_snoc. split; [exact Hmax|].
+    assert (Hl : length ks' = length es) by (rewrite app_length in Hk; cbn in Hk; lia).
+    pose proof (elements_split es [] ks' k [] Hl eq_refl) as Hsp. rewrite app_nil_r in Hsp.
+    rewrite Hsp. cbn [zipr]. rewrite He, app_nil_r, app_assoc. reflexivity.
+Qed.
+
+Lemma maximum_root t root : wf t root ->
+  maximum root = match rev (elements root) with e :: _ => Ok e | [] => Internal eIndex end.
+Proof.
+  intros (Ht & (h & Hw) & _). unfold wfr, root_lo in Hw. destruct root as [lf es ks]. destruct lf.
+  - cbn. destruct (rev es); reflexivity.
+  - cbn [n_leaf] in Hw. destruct (maximum_spec t Ht h 1 _ Hw (le_n _)) as (e & front & -> & ->).
+    rewrite rev_app_distr. reflexivity.
+Qed.
+
 Theorem step_sim w rw x :
   R w rw ->
   let '(w', o) := step w (enc x) in
@@ -569,6 +743,75 @@ Proof.
       split; [reflexivity|]. split; [exact Han|]. exists b. auto.
     + split; [reflexivity|]. apply R_cursors; [assumption|]. apply Forall2_set_nth; [apply HR|].
       split; [reflexivity|]. split; [exact Han|]. exists b. auto.
+  - (* minimum *) pose proof (R_tree w rw ti HR) as Ht.
+    destruct (nth_error (w_trees w) ti) as [b|] eqn:Eb, (nth_error (rw_trees rw) ti) as [r|] eqn:Er; try contradiction; [|auto].
+    pose proof Ht as (Hbwf & He & Htt & Him & Hio).
+    destruct Hbwf as (Hwf & _). rewrite (minimum_root _ _ Hwf), He. destruct (r_items r); cbn; auto.
+  - (* maximum *) pose proof (R_tree w rw ti HR) as Ht.
+    destruct (nth_error (w_trees w) ti) as [b|] eqn:Eb, (nth_error (rw_trees rw) ti) as [r|] eqn:Er; try contradiction; [|auto].
+    pose proof Ht as (Hbwf & He & Htt & Him & Hio).
+    destruct Hbwf as (Hwf & _). rewrite (maximum_root _ _ Hwf), He. destruct (rev (r_items r)); cbn; auto.
+  - (* pop *) pose proof (R_tree w rw ti HR) as Ht.
+    destruct (nth_error (w_trees w) ti) as [b|] eqn:Eb, (nth_error (rw_trees rw) ti) as [r|] eqn:Er; try contradiction; [|auto].
+    pose proof Ht as (Hbwf & He & Htt & Him & Hio).
+    rewrite (get_element_spec b k Hbwf), He.
+    destruct (find_sorted k (r_items r)) as [e|] eqn:Ef; [|auto].
+    pose proof (sim_delete w rw ti b r k None (fun d => match d with DDel _ => I (snd e) | _ => Prelude.E eKey end) HR Eb Er Ht) as Hsim.
+    cbn zeta in Hsim. rewrite Ef in Hsim. cbn [dspec after_del] in Hsim. exact Hsim.
+  - (* popitem *) pose proof (R_tree w rw ti HR) as Ht.
+    destruct (nth_error (w_trees w) ti) as [b|] eqn:Eb, (nth_error (rw_trees rw) ti) as [r|] eqn:Er; try contradiction; [|auto].
+    pose proof Ht as (Hbwf & He & Htt & Him & Hio).
+    rewrite (first_element_spec b Hbwf), He.
+    destruct (r_items r) as [|x l] eqn:Ei; cbn [hd_error]; [auto|].
+    rewrite (get_element_spec b _ Hbwf), He, find_sorted_hd.
+    pose proof (sim_delete w rw ti b r (fst x) None (fun d => match d with DDel _ => L [I (fst x); I (snd x)] | _ => Prelude.E eKey end) HR Eb Er Ht) as Hsim.
+    cbn zeta in Hsim. rewrite Ei, find_sorted_hd in Hsim. cbn [dspec after_del] in Hsim. exact Hsim.
+  - (* clear *) pose proof (R_tree w rw ti HR) as Ht.
+    destruct (nth_error (w_trees w) ti) as [b|] eqn:Eb, (nth_error (rw_trees rw) ti) as [r|] eqn:Er; try contradiction; [|auto].
+    pose proof Ht as (Hbwf & He & Htt & Him & Hio).
+    rewrite (first_element_spec b Hbwf), He.
+    destruct (r_items r) as [|x l] eqn:Ei; cbn [hd_error]; [auto|].
+    apply (sim_mutate_gen w rw ti b r _ [] N HR Eb Er Ht).
+    + intros Hf. destruct (clear_frozen b x l (Z.to_nat (b_size b)) Hbwf Hf He) as (-> & _). reflexivity.
+    + intros Hf. destruct (clear_loop_spec (x :: l) (S (Z.to_nat (b_size b))) b Hbwf Hf He) as (b' & -> & Hb' & He' & Him' & Ht' & Hio').
+      { destruct Hbwf as (_ & Hsz). rewrite Hsz, He. unfold zlen. rewrite Nat2Z.id. lia. }
+      cbn [bind]. exists b'. split; [reflexivity|]. split; [|assumption].
+      unfold tree_rel, r_set. cbn [r_items r_t r_immut r_inorder]. repeat split; try (apply Hb'); congruence.
+  - (* setdefault *) pose proof (R_tree w rw ti HR) as Ht.
+    destruct (nth_error (w_trees w) ti) as [b|] eqn:Eb, (nth_error (rw_trees rw) ti) as [r|] eqn:Er; try contradiction; [|auto].
+    pose proof Ht as (Hbwf & He & Htt & Him & Hio).
+    rewrite (get_element_spec b k Hbwf), He.
+    destruct (find_sorted k (r_items r)) as [e|] eqn:Ef; [auto|].
+    pose proof (sim_insert w rw ti b r k v (b_inorder b) (fun _ => I v) HR Eb Er Ht) as Hsim. exact Hsim.
+  - (* update *) pose proof (R_tree w rw ti HR) as Ht.
+    destruct (nth_error (w_trees w) ti) as [b|] eqn:Eb, (nth_error (rw_trees rw) ti) as [r|] eqn:Er; try contradiction; [|auto].
+    pose proof Ht as (Hbwf & He & Htt & Him & Hio).
+    exact (sim_insert w rw ti b r k v (b_inorder b) (fun _ => N) HR Eb Er Ht).
+  - (* set remove *) pose proof (R_tree w rw ti HR) as Ht.
+    destruct (nth_error (w_trees w) ti) as [b|] eqn:Eb, (nth_error (rw_trees rw) ti) as [r|] eqn:Er; try contradiction; [|auto].
+    pose proof Ht as (Hbwf & He & Htt & Him & Hio).
+    rewrite (get_element_spec b k Hbwf), He.
+    destruct (find_sorted k (r_items r)) as [e|] eqn:Ef; [|auto].
+    pose proof (sim_delete w rw ti b r k None (fun _ => N) HR Eb Er Ht) as Hsim.
+    cbn zeta in Hsim. rewrite Ef in Hsim. cbn [dspec after_del] in Hsim. exact Hsim.
+  - (* set pop *) pose proof (R_tree w rw ti HR) as Ht.
+    destruct (nth_error (w_trees w) ti) as [b|] eqn:Eb, (nth_error (rw_trees rw) ti) as [r|] eqn:Er; try contradiction; [|auto].
+    pose proof Ht as (Hbwf & He & Htt & Him & Hio).
+    rewrite (first_element_spec b Hbwf), He.
+    destruct (r_items r) as [|x l] eqn:Ei; cbn [hd_error]; [auto|].
+    pose proof (sim_delete w rw ti b r (fst x) None (fun _ => I (fst x)) HR Eb Er Ht) as Hsim.
+    cbn zeta in Hsim. rewrite Ei, find_sorted_hd in Hsim. cbn [dspec after_del] in Hsim. exact Hsim.
+  - (* set clear *) pose proof (R_tree w rw ti HR) as Ht.
+    destruct (nth_error (w_trees w) ti) as [b|] eqn:Eb, (nth_error (rw_trees rw) ti) as [r|] eqn:Er; try contradiction; [|auto].
+    pose proof Ht as (Hbwf & He & Htt & Him & Hio).
+    rewrite (first_element_spec b Hbwf), He.
+    destruct (r_items r) as [|x l] eqn:Ei; cbn [hd_error]; [auto|].
+    apply (sim_mutate_gen w rw ti b r _ [] N HR Eb Er Ht).
+    + intros Hf. destruct (clear_frozen b x l (Z.to_nat (b_size b)) Hbwf Hf He) as (_ & ->). reflexivity.
+    + intros Hf. destruct (sclear_loop_spec (x :: l) (S (Z.to_nat (b_size b))) b Hbwf Hf He) as (b' & -> & Hb' & He' & Him' & Ht' & Hio').
+      { destruct Hbwf as (_ & Hsz). rewrite Hsz, He. unfold zlen. rewrite Nat2Z.id. lia. }
+      cbn [bind]. exists b'. split; [reflexivity|]. split; [|assumption].
+      unfold tree_rel, r_set. cbn [r_items r_t r_immut r_inorder]. repeat split; try (apply Hb'); congruence.
 Qed.
 
 (* ---------------------------------------------------------------- whole histories *)
